@@ -218,10 +218,22 @@ def check_sparse(case, rec=None):
     rng = np.random.RandomState(case["mseed"] % (2 ** 32))
     mask = np.zeros((ns, nf), bool)
     mask[1:-1, 1:-1] = rng.random_sample((ns - 2, nf - 2)) >= case["gap"]
+    edges = case["mseed"] % 3 == 0
+    if edges:
+        # a pixel list may reach the first / last row and column of the detector (a sparse list has no border)
+        mask = rng.random_sample((ns, nf)) >= case["gap"]
+        mask[:, 0] |= rng.random_sample(ns) < 0.5
     if not mask.any():
         mask[1, 1] = True
     dense = np.where(mask, im + 1.0, 0.0).astype(np.float32)       # gaps/border are below every listed pixel
-    ref, nref, hops, root, tie = reference(dense)
+    if edges:
+        # reference on the image framed by one ring of background, so that detector-edge pixels are interior
+        framed = np.zeros((ns + 2, nf + 2), np.float32)
+        framed[1:-1, 1:-1] = dense
+        r_, nref, h_, root_, t_ = reference(framed)
+        ref, hops, root, tie = r_[1:-1, 1:-1], h_, root_, t_
+    else:
+        ref, nref, hops, root, tie = reference(dense)
     # gaps are equal-valued (0): a listed pixel never steps onto them, so ties among zeros are harmless;
     # the pixels of interest are the listed ones
     i, j = np.nonzero(mask)
@@ -344,7 +356,8 @@ def check_sparse(case, rec=None):
     if rec is not None:
         rec.case(case, case["gap"] > 0 and nexp >= 2, ["sparse", "gap:%g" % case["gap"],
                                                           "values:" + {"none": "positive", "mid": "mixed_sign",
-                                                                       "all": "negative"}[case.get("offset", "none")]])
+                                                                       "all": "negative"}[case.get("offset", "none")]] +
+                 (["detector_edge_pixels"] if edges else []))
     return fails
 
 
